@@ -134,6 +134,55 @@ fn make_archives(dir: &std::path::Path, seed: u64, thorough: bool) -> Vec<Archiv
         if let Some(g) = some_raw_group { ops.push(Q::RefSeg(g)); }
         out.push(ArchiveCase { name: format!("{n}-samples (raw-stored ref group {:?}, zstd ref group {:?}, raw group {:?})", raw_ref_group, zstd_ref_group, some_raw_group), path, ops });
     }
+    // length-ratio archive: one group whose reference has length L and which also holds delta segments of
+    // length 4L-8 .. 4L+1 (a sample with a ~3L-base insertion inside one segment). 4 is the packing factor of
+    // the 2-bit reference heuristic: whether a cached reference is right must not depend on which of these
+    // segments was asked for first.
+    'ratio: for attempt in 0..20u64 {
+        let mut rng = Rng::new(seed ^ 0x4A710 ^ (attempt << 32));
+        let a = rng.bases(420);
+        let cfg = Cfg { k: 11, segment_size: 40, min_match: 15, threads: 2, ..Cfg::default() };
+        let path = format!("{}/ratio.agc", dir.display());
+        let ref_only: Vec<Sample> = vec![("A#0".to_string(), vec![("c1".to_string(), a.clone())])];
+        if build_archive(&path, &ref_only, &cfg, 120).is_err() { continue; }
+        let Ok(mut d) = open(&path) else { continue };
+        let Ok(segs) = d.get_contig_segments_desc("A#0", "c1") else { continue };
+        drop(d);
+        if segs.len() < 5 { continue; }
+        let idx = segs.len() / 2;
+        let l = segs[idx].raw_length as usize;
+        let mut start = 0usize;
+        for (i, x) in segs.iter().enumerate().take(idx) { start += if i == 0 { x.raw_length as usize } else { x.raw_length as usize - cfg.k }; }
+        let cut = start + l / 2;
+        let mut samples = ref_only.clone();
+        let deltas: [i64; 6] = [-8, -7, -4, -1, 0, 1];
+        for (j, dlt) in deltas.iter().enumerate() {
+            let mut b = a[..cut].to_vec();
+            b.extend(rng.bases((3 * l as i64 + dlt) as usize));
+            b.extend_from_slice(&a[cut..]);
+            samples.push((format!("B{j}#0"), vec![("c1".to_string(), b)]));
+        }
+        if build_archive(&path, &samples, &cfg, 120).is_err() { continue; }
+        let Ok(mut d) = open(&path) else { continue };
+        let Ok(sa) = d.get_contig_segments_desc("A#0", "c1") else { continue };
+        let mut ok = true;
+        for (j, dlt) in deltas.iter().enumerate() {
+            match d.get_contig_segments_desc(&format!("B{j}#0"), "c1") {
+                Ok(sb) if sb.len() == sa.len() && sb[idx].group_id == sa[idx].group_id && sb[idx].raw_length as i64 == 4 * l as i64 + dlt => {}
+                _ => ok = false,
+            }
+        }
+        if !ok { continue 'ratio; }
+        let g = sa[idx].group_id;
+        let mut ops = vec![Q::GetContig("A#0".into(), "c1".into()), Q::RefSeg(g), Q::Range("A#0".into(), "c1".into(), cut.saturating_sub(10), cut + 10)];
+        for j in 0..deltas.len() {
+            ops.push(Q::GetContig(format!("B{j}#0"), "c1".into()));
+        }
+        ops.push(Q::GetSample("B2#0".into()));
+        ops.push(Q::Range("B4#0".into(), "c1".into(), cut - 5, cut + 3 * l));
+        out.push(ArchiveCase { name: format!("length-ratio (group {g}: reference length {l}, deltas of length 4L-8..4L+1)"), path, ops });
+        break;
+    }
     out
 }
 
